@@ -12,18 +12,50 @@ def chunkF (n : Nat) (l : List Float) : Nat → List (List Float)
   | 0 => []
   | k + 1 => l.take n :: chunkF n (l.drop n) k
 
+/-- per-pixel extras: the magnitude `rabs` and the flag `fexact` (the float decision is the exact one) -/
+structure Extra where
+  rabs : Option Rat
+  fexact : Bool
+
 /-- lhs/rhs of the decision in the form the harness needs for the margin: mean filter `d²` against
 `t²·s`, median filter `d` against `t·s`; `rhs = null` for an infinite threshold -/
-def jCell (sq : Bool) (t : Option Rat) (c : Cell) : Json :=
+def jCell (sq : Bool) (t : Option Rat) (c : Cell) (e : Extra) : Json :=
+  let rabs := e.rabs
   let lhs := if sq then c.d * c.d else c.d
   let rhs := t.map (fun t => if sq then t * t * c.s else t * c.s)
   let o := if sq then c.outlierSq t else c.outlierLin t
   jObj [("x", jRat c.x), ("lhs", jRat lhs), ("rhs", jOpt jRat rhs), ("repl", jRat c.repl),
+        ("rabs", jOpt jRat rabs), ("fexact", jBool e.fexact),
         ("outlier", jBool o), ("out", jRat (if sq then c.outSq t else c.outLin t))]
 
-def jSpec (sq : Bool) (t : Option Rat) : SpecPx → Json
-  | .exact c => (jCell sq t c).setObjVal! "kind" (jStr "exact")
+def jSpec (sq : Bool) (t : Option Rat) (s : SpecPx) (e : Extra) : Json :=
+  match s with
+  | .exact c => (jCell sq t c e).setObjVal! "kind" (jStr "exact")
   | .range x lo hi => jObj [("kind", jStr "range"), ("x", jRat x), ("lo", jRat lo), ("hi", jRat hi)]
+
+/-- the replacement of an interior pixel of the image of absolute values: the mean magnitude of the
+values the replacement averages (`none` for border pixels and when not asked for) -/
+def specRabs (want : Bool) : SpecPx → Option Rat
+  | .exact c => if want then some c.repl else none
+  | .range _ _ _ => none
+
+def cellRabs (want : Bool) (cells cellsA : List Cell) : List (Option Rat) :=
+  if want then cellsA.map (fun c => some c.repl) else cells.map (fun _ => none)
+
+def zip3J (f : Cell → Extra → Json) (a : List Cell) (b : List (Option Rat)) (c : List Bool) : Json :=
+  Json.arr (zip3With (fun x r e => f x ⟨r, e⟩) a b c).toArray
+
+def noExtra : Extra := ⟨none, false⟩
+
+/-- the `(2h+1)` neighbourhood of an interior pixel and the same without the pixel (1-D) -/
+def specExact1 (p : Nat) (emin : Int) (t : Option Rat) (b : Nat) (x : List Rat) (i : Nat) : Bool :=
+  let h := b / 2
+  interior b x.length i &&
+    meanDecisionExact p emin t (at1 x i) (slice (i - h) (2 * h + 1) x) (slice (i - h) h x ++ slice (i + 1) h x)
+
+def specExact2 (p : Nat) (emin : Int) (t : Option Rat) (b0 b1 : Nat) (x : List (List Rat)) (i j : Nat) : Bool :=
+  interior b0 x.length i && interior b1 (x.headD []).length j &&
+    meanDecisionExact p emin t (at2 x i j) (nbhd2 (b0 / 2) (b1 / 2) x i j) (others2 (b0 / 2) (b1 / 2) x i j)
 
 def handle (op : String) (req : Json) : R Json := do
   match op with
@@ -44,25 +76,43 @@ def handle (op : String) (req : Json) : R Json := do
       | "exact" => pure (mean, median)
       | "rint" => pure ((fun l => rint (mean l)), (fun l => rint (median l)))
       | m => throw s!"bad pad mode {m}"
+    -- `rabs`: also the mean filter on the image of absolute values (magnitude of the values a replacement averages)
+    let wantAbs := (← getBool req "rabs") && sq
+    -- the computing format (binary64: 53, -1074; binary32: 24, -149) for `fexact`
+    let fp ← getNat req "p"
+    let femin ← getInt req "emin"
     match shape, block with
     | [n], [b] =>
       let cells := if sq then meanCellsP1 πmean b data else medianCellsP1 πmed median b data
-      let spec := (List.range n).map (fun i => if sq then specMean1 b data i else specMedian1 b data i)
+      let cellsA := cellRabs wantAbs cells (if wantAbs then meanCellsP1 πmean b (abs1 data) else [])
+      let cellsE := if sq then cellsG1 πmean (fun xi w => meanDecisionExact fp femin t xi w (w.eraseIdx (b / 2))) b data
+        else cells.map (fun _ => false)
+      let spec := (List.range n).map (fun i =>
+        let s := if sq then specMean1 b data i else specMedian1 b data i
+        jSpec sq t s ⟨if wantAbs then specRabs true (specMean1 b (abs1 data) i) else none,
+                      sq && specExact1 fp femin t b data i⟩)
       pure (jObj [("shape", jList jNat [cells.length]),
-                  ("model", jList (jCell sq t) cells), ("spec", jList (jSpec sq t) spec),
+                  ("model", zip3J (jCell sq t) cells cellsA cellsE), ("spec", Json.arr spec.toArray),
                   ("unchanged", jBool (mustBeUnchanged t data))])
     | [n0, n1], [b0, b1] =>
       let x := chunk n1 data n0
+      let xa := abs2 x
       let cells := if sq then meanCellsP2 πmean b0 b1 x else medianCellsP2 πmed median b0 b1 x
       let spec := (List.range n0).flatMap (fun i => (List.range n1).map (fun j =>
-        if sq then specMean2 b0 b1 x i j else specMedian2 b0 b1 x i j))
+        let s := if sq then specMean2 b0 b1 x i j else specMedian2 b0 b1 x i j
+        jSpec sq t s ⟨if wantAbs then specRabs true (specMean2 b0 b1 xa i j) else none,
+                      sq && specExact2 fp femin t b0 b1 x i j⟩))
       let rowlens := cells.map (·.length)
       let shp := match rowlens with
         | [] => [0, 0]
         | l :: _ => [cells.length, l]
       if rowlens.any (· != shp.getD 1 0) then throw "ragged model output"
+      let cellsA := cellRabs wantAbs cells.flatten (if wantAbs then (meanCellsP2 πmean b0 b1 xa).flatten else [])
+      let cellsE := if sq then (cellsG2 πmean (fun xi w =>
+            meanDecisionExact fp femin t xi w.flatten (maskCentre2 (b0 / 2) (b1 / 2) w)) b0 b1 x).flatten
+        else cells.flatten.map (fun _ => false)
       pure (jObj [("shape", jList jNat shp),
-                  ("model", jList (jCell sq t) cells.flatten), ("spec", jList (jSpec sq t) spec),
+                  ("model", zip3J (jCell sq t) cells.flatten cellsA cellsE), ("spec", Json.arr spec.toArray),
                   ("unchanged", jBool (mustBeUnchanged t data))])
     | _, _ => throw "only 1-D and 2-D"
   | "c13.at" =>
@@ -95,9 +145,9 @@ def handle (op : String) (req : Json) : R Json := do
       let spec := pixels.map (fun i => if sq then specMean1 b data i else specMedian1 b data i)
       let (shp, model) := if withModel then
           let cells := if sq then meanCellsP1 πmean b data else medianCellsP1 πmed median b data
-          (jList jNat [cells.length], jList (jCell sq t) cells)
+          (jList jNat [cells.length], jList (fun c => jCell sq t c noExtra) cells)
         else (Json.null, Json.null)
-      pure (jObj [("shape", shp), ("model", model), ("spec", jList (jSpec sq t) spec),
+      pure (jObj [("shape", shp), ("model", model), ("spec", jList (fun s => jSpec sq t s noExtra) spec),
                   ("unchanged", jBool (mustBeUnchanged t data))])
     | [n0, n1], [b0, b1] =>
       if n1 = 0 then throw "empty rows"
@@ -111,9 +161,9 @@ def handle (op : String) (req : Json) : R Json := do
             | [] => [0, 0]
             | l :: _ => [cells.length, l]
           if rowlens.any (· != shp.getD 1 0) then throw "ragged model output"
-          pure (jList jNat shp, jList (jCell sq t) cells.flatten)
+          pure (jList jNat shp, jList (fun c => jCell sq t c noExtra) cells.flatten)
         else pure (Json.null, Json.null)
-      pure (jObj [("shape", shp), ("model", model), ("spec", jList (jSpec sq t) spec),
+      pure (jObj [("shape", shp), ("model", model), ("spec", jList (fun s => jSpec sq t s noExtra) spec),
                   ("unchanged", jBool (mustBeUnchanged t data))])
     | _, _ => throw "only 1-D and 2-D"
   | "c13.f64" =>
